@@ -527,40 +527,6 @@ func TestVerifC22RemuxH265(t *testing.T) {
 	rapid.Check(t, func(t *rapid.T) { c22RunH26x(t, rec, c22H265) })
 }
 
-// TestVerifC22RegressH265UpdaterOrder pins the minimal failing input of the H.265 format updater defect
-// (plain Go, no rapid): the format holds VPS_a; one unit carries [VPS_b, VPS_a, IDR]. The most recent VPS seen
-// in-band is VPS_a, but formatUpdaterH265 compares every NAL unit with the *format's* field instead of the
-// running value, so the second VPS is considered "unchanged" and VPS_b wins.
-func TestVerifC22RegressH265UpdaterOrder(t *testing.T) {
-	if kit.Known(c22KnownH265) {
-		t.Skipf("listed in known_findings.json as %s (excluded by construction, reported by the driver)", c22KnownH265)
-	}
-	vpsA := []byte{0x40, 0x01, 0x0a}
-	vpsB := []byte{0x40, 0x01, 0x0b}
-	sps := []byte{0x42, 0x01, 0x01}
-	pps := []byte{0x44, 0x01, 0xc1}
-	idr := []byte{0x26, 0x01, 0x99}
-
-	forma := &format.H265{PayloadTyp: 96, VPS: vpsA, SPS: sps, PPS: pps}
-	var updated bool
-	formatUpdaterH265(forma, unit.PayloadH265{vpsB, vpsA, idr}, func(f func()) { updated = true; f() })
-	out := unitRemuxerH265(forma, unit.PayloadH265{vpsB, vpsA, idr}).(unit.PayloadH265)
-
-	if !bytes.Equal(forma.VPS, vpsA) || !bytes.Equal(out[0], vpsA) {
-		t.Fatalf("H.265 unit [VPS_b VPS_a IDR] with format VPS_a: description VPS=%x, key frame preceded by %x; "+
-			"the most recent VPS seen in-band is %x (updated=%v)", forma.VPS, out[0], vpsA, updated)
-	}
-
-	// same shape on H.264 (correct upstream): [SPS_b SPS_a IDR] keeps SPS_a
-	spsA := []byte{0x67, 0x42, 0x0a}
-	spsB := []byte{0x67, 0x42, 0x0b}
-	f264 := &format.H264{PayloadTyp: 96, PacketizationMode: 1, SPS: spsA, PPS: []byte{0x68, 0x01}}
-	formatUpdaterH264(f264, unit.PayloadH264{spsB, spsA, {0x65, 0x01}}, func(f func()) { f() })
-	if !bytes.Equal(f264.SPS, spsA) {
-		t.Fatalf("H.264 unit [SPS_b SPS_a IDR]: description SPS=%x want %x", f264.SPS, spsA)
-	}
-}
-
 // ---------------------------------------------------------------------------------------------------------
 // MPEG-4 Video
 //
